@@ -150,6 +150,21 @@ Theorem C11g_link_good_char_set :
 Proof. exact link_good_char_set. Qed.
 Print Assumptions C11g_link_good_char_set.
 
+Theorem C11g_link_class_ids :
+  forall (p : CharPartition) (fuel : nat),
+       (plen (convp p) + 2 <= fuel)%nat ->
+       option_map (map convc) (drain_ids fuel (CharPartition_class_ids p)) =
+       Some (pclass_ids (convp p)).
+Proof. exact link_class_ids. Qed.
+Print Assumptions C11g_link_class_ids.
+
+Theorem C11g_link_picks :
+  forall (p : CharPartition) (fuel : nat),
+       (plen (convp p) + 2 <= fuel)%nat ->
+       drain_picks fuel (CharPartition_picks p) = Some (ppicks (convp p)).
+Proof. exact link_picks. Qed.
+Print Assumptions C11g_link_picks.
+
 (* ---- the C11 statements on the translated code ---- *)
 
 Theorem C11g_new_wf :
@@ -246,6 +261,29 @@ Theorem C11g_empty_complement :
        (forall x : N, good x -> covered (ivs (convp p)) x).
 Proof. exact g_empty_complement. Qed.
 Print Assumptions C11g_empty_complement.
+
+Theorem C11g_class_ids :
+  forall (p : CharPartition) (fuel : nat),
+       gwf p ->
+       (plen_of p + 2 <= fuel)%nat ->
+       exists l : list ClassId,
+         drain_ids fuel (CharPartition_class_ids p) = Some l /\
+         NoDup (map convc l) /\
+         (forall c : classid,
+          In c (map convc l) <-> (exists x : N, good x /\ in_class (convp p) x c)).
+Proof. exact g_class_ids. Qed.
+Print Assumptions C11g_class_ids.
+
+Theorem C11g_picks :
+  forall (p : CharPartition) (fuel : nat),
+       gwf p ->
+       (plen_of p + 2 <= fuel)%nat ->
+       exists (l : list ClassId) (xs : list N),
+         drain_ids fuel (CharPartition_class_ids p) = Some l /\
+         drain_picks fuel (CharPartition_picks p) = Some xs /\
+         Forall2 (fun (c : ClassId) (x : N) => good x /\ in_class (convp p) x (convc c)) l xs.
+Proof. exact g_picks. Qed.
+Print Assumptions C11g_picks.
 
 Theorem C11g_example :
   let p :=
